@@ -480,7 +480,7 @@ func (c *Ctx) hookSummary(b string, f *ssa.Function, depth int) []opSummary {
 				strings.Contains(t, "errors.Is(err,") ||
 				// a guard on the event's packet (its type, flags): "this kind of packet is not stored" must hold for all
 				// backends or for none
-				strings.Contains(t, "pk.")
+				(strings.Contains(t, "pk.") && !strings.Contains(t, "builtin.len(pk.")) // (not the bound of a loop over the packet's filters)
 			if !keep {
 				continue
 			}
@@ -501,7 +501,7 @@ func (c *Ctx) hookSummary(b string, f *ssa.Function, depth int) []opSummary {
 			onHookState := strings.Contains(t, "h.") && !strings.Contains(t, "h.db") && !strings.Contains(t, "h.Log") && !strings.Contains(t, "h.config") && !strings.Contains(t, "h.ctx")
 			// … or depending on the event's packet (`if pk.FixedHeader.Type == Publish && pk.FixedHeader.Dup { return }`:
 			// no single edge dominates the operation, so the guard list above does not show it)
-			onPacket := strings.Contains(t, "pk.")
+			onPacket := strings.Contains(t, "pk.") && !strings.Contains(t, "builtin.len(pk.")
 			if !onHookState && !onPacket {
 				continue
 			}
